@@ -87,7 +87,7 @@ class C07(Prop):
     def source(self, c):
         return defgen.class_init_src(c["facts"]) if c["form"] == "class_init" else defgen.module_src(c["facts"])
 
-    def parse_it(self, c, record=None):
+    def parse_it(self, c, record=None, infer_type=False):
         src = self.source(c)
         mod = ast.parse(src)
         real = self.parser_utils.ir_merge
@@ -103,10 +103,11 @@ class C07(Prop):
             self.parser_utils.ir_merge = spy
             self.parse.ir_merge = spy
         try:
+            kw = {"infer_type": True} if infer_type else {}
             if c["form"] == "class_init":
-                return self.parse.class_(mod.body[0], merge_inner_function="__init__")
+                return self.parse.class_(mod.body[0], merge_inner_function="__init__", **kw)
             node = mod.body[0].body[0] if c["facts"]["method"] else mod.body[0]
-            return self.parse.function(node)
+            return self.parse.function(node, **kw)
         finally:
             if record is not None:
                 self.parser_utils.ir_merge = real
@@ -240,6 +241,17 @@ class C07(Prop):
             elif p["has_default"] and p["default"] is not None:
                 if "default" not in q or rt(q["default"]) != rt(p["default"]):
                     fails.append({"what": "signature default not carried", "name": p["name"], "want": rt(p["default"]), "got": rt(q["default"]) if "default" in q else "<absent>"})
+        # `infer_type=True` may only FILL IN a type nobody gave: a type known from the annotation or the docstring stays
+        if not fails:
+            try:
+                ir2 = self.parse_it(c, infer_type=True)
+                for p in view:
+                    q, q2 = ir["params"].get(p["name"]), ir2["params"].get(p["name"])
+                    given = (documented.get(p["name"]) or {}).get("typ") or p["ann"]
+                    if given is not None and q is not None and q2 is not None and q.get("typ") is not None and q2.get("typ") != q.get("typ"):
+                        fails.append({"what": "with infer_type=True a type that was known is replaced", "name": p["name"], "known": q.get("typ"), "got": q2.get("typ")})
+            except Exception:
+                pass
         return fails
 
     def classify(self, c, fl):
